@@ -70,6 +70,9 @@ fn status_value(rng: &mut Rng) -> (Option<ServerStatus>, Value) {
         0 | 1 => Some(format!("data:image/png;base64,{}", rng.ascii_name(4, 20))),
         2 => Some(format!("data:image/png;base64,{}", rng.ascii_name(16_300, 16_500))),
         3 => Some(format!("data:image/png;base64,{}", rng.ascii_name(20_000, 30_000))),
+        // an icon nobody shrank: the answer is longer than the 32767 a client reads as one string and
+        // than the 65535 a 16-bit length holds; what the status service says is still what is sent
+        4 => Some(format!("data:image/png;base64,{}", rng.ascii_name(33_000, 70_000))),
         _ => None,
     };
     let secure = if rng.bool() { Some(rng.bool()) } else { None };
